@@ -94,6 +94,23 @@ Proof.
     apply Nat.ltb_lt in L. rewrite L. eauto.
 Qed.
 
+(* The input channel has room for every token holder, for every token count: the calls that carry a
+   tracked seed towards the input channel (an insert that has stored, a feedback, ...) plus the items
+   already buffered there never exceed the tracked seeds, hence the tokens in use, hence n - which IS
+   the capacity of the input channel ([cap] is the one capacity of the model). *)
+Lemma input_has_room_lemma : forall n m ls s, runw fixed (init n m) ls = Some s ->
+  cap s = n
+  /\ sumw w_loc (calls s) + length (input s) <= length (table s)
+  /\ length (table s) <= tokens s /\ tokens s <= cap s.
+Proof.
+  intros n m ls s H. pose proof (winv_runw _ _ _ _ H) as W.
+  assert (C : cap s = n).
+  { apply runw_run in H. eapply (run_inv fixed (fun s => cap s = n)); [| | exact H]; [|reflexivity].
+    intros s0 l s1 E0 E1. apply cap_step in E1. destruct E1. congruence. }
+  pose proof (w_len s W). pose proof (w_acc1 s W). pose proof (w_acc2 s W).
+  split; [exact C|]. unfold id in *. lia.
+Qed.
+
 (* a well-formed client never makes the reactor panic *)
 Lemma wf_no_crash_lemma : forall n m ls s, runw fixed (init n m) ls = Some s -> crashed s = false.
 Proof. intros. eapply w_crash, winv_runw; eauto. Qed.
